@@ -60,10 +60,12 @@ def classify(text):
                 res.why = "backslash"
                 return res
         if chars[i] == "#":
-            if continuing or quote is not None:
+            if quote is not None:
                 res.ok = False
-                res.why = "preprocessor line inside a continued statement"
+                res.why = "preprocessor line inside a continued character literal"
                 return res
+            # (a preprocessor line between the lines of a continued statement is ordinary: the directive is counted and
+            # the continuation is still pending after it)
             res.counted.add(ln)
             res.directives.append((ln,))
             # a C comment opener / literal inside the directive could swallow following lines: keep to directives
